@@ -1,5 +1,6 @@
 import Decstr.Spec.Judge
 import Decstr.Model.Api
+import Decstr.Model.ExecHooks
 /-!
 # Line-protocol driver
 
@@ -158,9 +159,34 @@ def judge (req ans : List String) : Option Complaints :=
 def splitArrow (toks : List String) : List String × List String :=
   (toks.takeWhile (· != "=>"), (toks.dropWhile (· != "=>")).drop 1)
 
+/-- Work package HOOKS: `x_<name> <dbg|rel> <args…> => <ok:…|panic|skip>`.  The checked model (`Model/Exec*.lean`) answers
+    the same call; the first field is `OK` when both sides agree (value or panic), `SKIP` when the harness could not shape
+    the request, else `VIOL X05:<model's site or "value"> model=<…> impl=<…>`.  The third field carries the site the model
+    stopped at (`OK site=<site>`), so that the sites exercised by a run can be listed. -/
+def answerHookLine (req ans : List String) : String :=
+  match req with
+  | name :: prof :: args =>
+    if prof != "dbg" && prof != "rel" then "BAD ## - ## -"
+    else
+      match Decstr.Model.Exec.Hooks.answerHookC name (prof == "dbg") args with
+      | none => "BAD ## - ## -"
+      | some r =>
+        let impl := " ".intercalate ans
+        let (model, site) := match r with
+          | .ok s => (s!"ok:{s}", none)
+          | .error site => ("panic", some (site.replace " " "_"))
+        let third := match site with
+          | some s => s!"OK site={s}"
+          | none => "OK"
+        if impl == "skip" then s!"SKIP ## {model} ## {third}"
+        else if impl == model then s!"OK ## {model} ## {third}"
+        else s!"VIOL X05:{site.getD "value"} model={model} impl={impl} ## {model} ## {third}"
+  | _ => "BAD ## - ## -"
+
 def answerLine (line : String) : String :=
   let toks := (line.trimAscii.toString.splitOn " ").filter (· != "")
   let (req, ans) := splitArrow toks
+  if (req.head?.getD "").startsWith "x_" then answerHookLine req ans else
   let verdict := match judge req ans with
     | some cs => showComplaints cs
     | none => "BAD"
